@@ -89,10 +89,13 @@ Record ucfg := mkCfg {
   u_start : Z * Z;           (* start time: seconds, nanoseconds *)
   u_on : bool;               (* mode "on" (true) or "local" (false) *)
   u_asof : option Z;         (* the mode file's date, seconds; None = absent *)
-  u_dir : bytes              (* path of local/ (no longer examined: notNeeded looks at base names) *)
+  u_dir : bytes;             (* path of local/ (no longer examined: notNeeded looks at base names) *)
+  u_zone : Z                 (* the start time's zone, seconds east of UTC: only "today" is read off that clock *)
 }.
 
-Definition today (c : ucfg) : bytes := fmt_date (fst (u_start c) / 86400).
+(* thisInstant.Format(DateOnly): the date of the start instant on the start time's own clock.  The
+   week of a count file (uploader_week of its end) does not depend on that zone. *)
+Definition today (c : ucfg) : bytes := fmt_date ((fst (u_start c) + u_zone c) / 86400).
 
 (* findWork: is a *.json entry collected for upload *)
 Definition ready_ok (asof : option Z) (n : bytes) : bool :=
